@@ -445,6 +445,8 @@ def correspondence(ctx):
         scaled = rescale(args[pos], lam, rng)
         one_case(ctx, table, name, names, args, pos, lam, scaled)
     directed(ctx)
+    from props import c02
+    c02.rounded_dependent_stream(ctx, ctx.budget(40, 400), prefix="C03")      # a multiple of an object is the same object: the same error
     from_tangent_stream(ctx, ctx.budget(40, 400))
     polyhedron_eq_stream(ctx, ctx.budget(15, 150))
     from props import c13
